@@ -95,7 +95,8 @@ public:
     requires(is_mutable && std::is_same_v<Impl, typename liebase_info<OtherDerived>::Impl>)
   Derived & operator=(const LieGroupBase<OtherDerived> & o) noexcept
   {
-    derived().coeffs() = static_cast<const OtherDerived &>(o).coeffs();
+    // evaluate first: source and destination may be overlapping views of one buffer
+    derived().coeffs() = static_cast<const OtherDerived &>(o).coeffs().eval();
     return derived();
   }
 
